@@ -599,8 +599,9 @@ def clauses_stage_contract(ctx, py: PyRepo, max_k: int = 4):
         return t
 
     class Unroll(ast.NodeTransformer):
-        def __init__(self, k, lens=None):
+        def __init__(self, k, lens=None, seqlens=None):
             self.k, self.i = k, None
+            self.seqlens = dict(seqlens or {})          # local name of a sequence -> its (assumed) length
             # the length variables: locals whose definition is `len(..)` of a recursive result
             self.lens = lens if lens is not None else {
                 n.targets[0].id for n in ast.walk(src_fn) if isinstance(n, ast.Assign) and len(n.targets) == 1
@@ -611,18 +612,25 @@ def clauses_stage_contract(ctx, py: PyRepo, max_k: int = 4):
                 return e.value
             if isinstance(e, ast.Name) and e.id in self.lens:
                 return self.k
+            if isinstance(e, ast.Call) and isinstance(e.func, ast.Name) and e.func.id == 'len' and len(e.args) == 1 \
+                    and isinstance(e.args[0], ast.Name) and e.args[0].id in self.seqlens:
+                return self.seqlens[e.args[0].id]
             if isinstance(e, ast.BinOp) and isinstance(e.op, (ast.Add, ast.Sub)):
                 a, b = self._int(e.left), self._int(e.right)
                 return None if a is None or b is None else (a + b if isinstance(e.op, ast.Add) else a - b)
             return None
 
         def visit_For(self, node):
-            if isinstance(node.target, ast.Name) and isinstance(node.iter, ast.Call) and ast.unparse(node.iter.func) == 'range':
-                bounds = [self._int(a) for a in node.iter.args]
+            # `for i in range(a, b)` and `for x in map(f, range(a, b))` (x stands for f(i)) with bounds known for this k
+            it, wrap = node.iter, None
+            if isinstance(it, ast.Call) and ast.unparse(it.func) == 'map' and len(it.args) == 2 and isinstance(it.args[0], (ast.Name, ast.Attribute)):
+                wrap, it = it.args[0], it.args[1]
+            if isinstance(node.target, ast.Name) and isinstance(it, ast.Call) and ast.unparse(it.func) == 'range':
+                bounds = [self._int(a) for a in it.args]
                 if bounds and all(b is not None for b in bounds):
                     out = []
                     for j in range(*bounds):
-                        self.i = (node.target.id, j)
+                        self.i = (node.target.id, j, wrap)
                         for st in node.body:
                             out.append(self.visit(copy.deepcopy(st)))
                         self.i = None
@@ -655,13 +663,20 @@ def clauses_stage_contract(ctx, py: PyRepo, max_k: int = 4):
 
         def visit_Name(self, node):
             if self.i and node.id == self.i[0] and isinstance(node.ctx, ast.Load):
+                if len(self.i) > 2 and self.i[2] is not None:
+                    return ast.Call(func=copy.deepcopy(self.i[2]), args=[ast.Constant(self.i[1])], keywords=[])
                 return ast.Constant(self.i[1])
             return node
 
     n = 0
     for branch, op in (('CFAnd', '_and'), ('CFOr', '_or')):
         for k in range(1, max_k + 1):
-            un = Unroll(k)
+            # the contract's shape assumption for the recursive result on term.left: k clauses (conjunction) / ONE clause of k literals
+            left_names = [t.elts[0].id for n in ast.walk(src_fn) if isinstance(n, ast.Assign) and len(n.targets) == 1
+                          for t in [n.targets[0]] if isinstance(t, ast.Tuple) and t.elts and isinstance(t.elts[0], ast.Name)
+                          and isinstance(n.value, ast.Call) and ast.unparse(n.value.func) == f'self.{src_fn.name}'
+                          and n.value.args and ast.unparse(n.value.args[0]).endswith('.left')]
+            un = Unroll(k, seqlens={nm: (k if branch == 'CFAnd' else 1) for nm in left_names})
             fn = un.visit(copy.deepcopy(src_fn))
             ast.fix_missing_locations(fn)
             taut = py.cls('Tautology')
@@ -680,9 +695,10 @@ def clauses_stage_contract(ctx, py: PyRepo, max_k: int = 4):
                     return None
                 params = [a.arg for a in h.args.args[1:]]
                 lens = {pn for pn, a in zip(params, call.args) if isinstance(a, ast.Name) and a.id in un.lens}
-                if not lens:
+                seql = {pn: un.seqlens[a.id] for pn, a in zip(params, call.args) if isinstance(a, ast.Name) and a.id in un.seqlens}
+                if not lens and not seql:
                     return None
-                hk = Unroll(k, lens).visit(copy.deepcopy(h))
+                hk = Unroll(k, lens, seql).visit(copy.deepcopy(h))
                 ast.fix_missing_locations(hk)
                 if any(isinstance(x, (ast.For, ast.While)) for x in ast.walk(hk)):
                     return None
@@ -837,8 +853,58 @@ def fold_direction(ctx, py: PyRepo):
     ctx.require(found >= 1, 'start_resolution_algorithm: the fold over the trivial-clause proofs was not found')
 
 
+def trivial_clause_definition(ctx, py: PyRepo):
+    """a clause is trivial exactly when it contains a literal together with its complement (then it is a tautology by itself and
+    is left out of the resolution); a clause wrongly classed as trivial is dropped and the prover declines or mis-answers.
+    Accepted spellings: a scan over all PAIRS of the clause (`combinations(.., 2)`, by loop or any()) for `x + y == 0` / `x == -y`;
+    `any(-x in cl for x in cl)`; and the cardinality idiom `len({abs(x) for x in cl}) < len(cl)` ONLY on a parameter declared as a
+    set and called with sets - on a clause list a repeated literal ([1, 1]) has fewer variables than literals without being trivial."""
+    import ast as _ast
+    from ..core.ordertaint import OrderAnalysis, ann_set_elem
+    fn = py.method('Tautology', 'is_trivial_clause')
+    where = py.where('tautology', fn)
+    ctx.require(len(fn.args.args) == 2, 'is_trivial_clause: signature changed')
+    CL = fn.args.args[1].arg
+    src = _ast.unparse(fn)
+    pair_scan = any(isinstance(n, _ast.Call) and _ast.unparse(n.func).endswith('combinations') and len(n.args) == 2
+                    and isinstance(n.args[1], _ast.Constant) and n.args[1].value == 2
+                    and any(isinstance(x, _ast.Name) and x.id == CL for x in _ast.walk(n.args[0])) for n in _ast.walk(fn))
+    complement_test = any(isinstance(n, _ast.Compare) and len(n.ops) == 1 and isinstance(n.ops[0], _ast.Eq) and (
+        (isinstance(n.left, _ast.BinOp) and isinstance(n.left.op, _ast.Add) and isinstance(n.comparators[0], _ast.Constant) and n.comparators[0].value == 0)
+        or isinstance(n.left, _ast.UnaryOp) and isinstance(n.left.op, _ast.USub) or isinstance(n.comparators[0], _ast.UnaryOp)
+        and isinstance(n.comparators[0].op, _ast.USub)) for n in _ast.walk(fn))
+    member_scan = any(isinstance(n, _ast.Compare) and len(n.ops) == 1 and isinstance(n.ops[0], _ast.In) and isinstance(n.left, _ast.UnaryOp)
+                      and isinstance(n.left.op, _ast.USub) and _ast.unparse(n.comparators[0]) == CL for n in _ast.walk(fn))
+    cardinality = any(isinstance(n, _ast.Compare) and len(n.ops) == 1 and isinstance(n.ops[0], (_ast.Lt, _ast.NotEq, _ast.Gt))
+                      and 'abs(' in _ast.unparse(n) and f'len({CL})' in _ast.unparse(n) for n in _ast.walk(fn))
+    if (pair_scan and complement_test) or member_scan:
+        ctx.ob('trivial-clause', 'definition', True, 'complementary pair scan', where)
+        return
+    if cardinality:
+        ann = _ast.unparse(fn.args.args[1].annotation) if fn.args.args[1].annotation is not None else ''
+        is_set = ann_set_elem(ann) is not None
+        oa = OrderAnalysis(py)
+        bad_sites = []
+        for mname, qn, g, ci in py.all_functions():
+            if mname != 'tautology':
+                continue
+            env = oa.local_env(g, ci)
+            for c in _ast.walk(g):
+                if isinstance(c, _ast.Call) and isinstance(c.func, _ast.Attribute) and c.func.attr == fn.name and len(c.args) == 1:
+                    if oa.set_elem(c.args[0], env, ci) is None:
+                        bad_sites.append(f'{qn}: {_ast.unparse(c)[:50]}')
+        ctx.ob('trivial-clause', 'definition', is_set and not bad_sites,
+               f'is_trivial_clause compares the number of variables with the number of literals (`{src.splitlines()[-1].strip()[:70]}`): that '
+               f'is "contains a complementary pair" only for duplicate-free clauses, but the parameter is declared `{ann}` and is called with '
+               f'{bad_sites or "sets"}: a clause list with a repeated literal such as [1, 1] is classed as trivial and dropped from the '
+               f'resolution', where)
+        return
+    ctx.require(False, f'is_trivial_clause: unrecognised definition `{src.splitlines()[-1].strip()[:80]}`')
+
+
 def run(ctx):
     py = PyRepo.get()
+    trivial_clause_definition(ctx, py)
     glue_polarity(ctx, py)
     # the stages are typed against the documented schemas of the lemmas they call: those schemas must be what the lemmas prove
     from .c10 import lemma_schemas
@@ -852,6 +918,9 @@ def run(ctx):
     cnf_shape(ctx, py)
     fold_direction(ctx, py)
     ctx.floor('cnf-shape', 5)
+    # a stage whose proofs could not be typed is undecided (it was typed on the reference tree): never a silent pass
+    if ctx.declined and not any(not o['ok'] for o in ctx.obligations):
+        ctx.require(False, f'{len(ctx.declined)} stage contract(s) left the analysed subset: ' + '; '.join(f"{d['name']}: {d['reason']}" for d in ctx.declined[:3]))
     ctx.floor('fold-direction', 1)
     ctx.floor('glue-polarity', 4)
     ctx.floor('stage-contract', 28)
